@@ -450,18 +450,6 @@ func TestVF_Limiter(t *testing.T) {
 	out := vfOpenLines(t, "cases.jsonl")
 	defer out.close()
 
-	if rp := vfReplayFile(); rp != "" {
-		vfReadLines(t, rp, func(line []byte) {
-			var cs vfLimCase
-			if err := json.Unmarshal(line, &cs); err != nil {
-				t.Fatal(err)
-			}
-			vfLimRunCase(t, p.srv.URL, &cs)
-			out.put(&cs)
-		})
-		return
-	}
-
 	// (i) what New() builds
 	type sample struct {
 		N         int   `json:"n"`
@@ -473,6 +461,20 @@ func TestVF_Limiter(t *testing.T) {
 		inst := vfLimNew(t, p.srv.URL, n)
 		rm, b := vfLimMeasure(inst)
 		samples = append(samples, sample{N: n, RateMilli: rm, Burst: b})
+	}
+	params := map[string]interface{}{"samples": samples, "min_rate_limit": MinRateLimit}
+
+	if rp := vfReplayFile(); rp != "" {
+		vfReadLines(t, rp, func(line []byte) {
+			var cs vfLimCase
+			if err := json.Unmarshal(line, &cs); err != nil {
+				t.Fatal(err)
+			}
+			vfLimRunCase(t, p.srv.URL, &cs)
+			out.put(&cs)
+		})
+		vfWriteJSON(t, "params.json", params)
+		return
 	}
 
 	// (ii) corpus first, then generated arrival patterns
@@ -493,11 +495,7 @@ func TestVF_Limiter(t *testing.T) {
 	}
 
 	// (iii), (iv)
-	params := map[string]interface{}{
-		"samples":        samples,
-		"min_rate_limit": MinRateLimit,
-		"support":        vfLimSupportRun(t, p),
-	}
+	params["support"] = vfLimSupportRun(t, p)
 	if vfTier() == "thorough" && os.Getenv("VERIF_REALTIME") != "0" {
 		params["realtime"] = []vfLimRealTime{
 			vfLimRealTimeRun(t, p.srv.URL, 25, 0.8, 2.5),
